@@ -13,6 +13,9 @@ GAMES = ["osu", "qua", "sm", "bms", "o2j"]
 MAPSET_GAMES = ("sm", "o2j")
 
 TEXTS = ["Caravan", "夜に駆ける", "Ünïcode", "a b c", "x_y-z", "", "Re:Title", "2nd", "A, B & C", "élan vital"]
+# osu / Quaver metadata only (StepMania ends a value at "//" or ";", BMS is Shift-JIS): values with a comment marker inside,
+# and the line-break characters of Unicode that are not line breaks of these formats
+OSU_QUA_TEXTS = TEXTS + ["http://example.com/ost", "7K // Another", "NEL\x85here", "Line\u2028Sep", "tab\there"]
 ASCII_TEXTS = ["Caravan", "a b c", "x_y-z", "", "2nd", "Title", "Some Artist"]
 FILES = ["hit.wav", "clap.ogg", "snare 2.wav", "kick.wav", "a-b_c.wav", "x.ogg"]
 BPMS = [60.0, 90.0, 100.0, 120.0, 128.0, 150.0, 173.25, 174.0, 180.5, 200.0, 222.22, 240.0, 300.0, 180.0018, 150.001, 150.004, 139.99969]
@@ -107,17 +110,17 @@ def gen_chart(rng, game, keys=None, n=None, style=None, n_bpm=None, empty_p=0.12
         ch["sv_x"] = [[rng.randrange(4), rng.randrange(3), rng.choice([5, 50, 100]), rng.random() < 0.3] for _ in ch["svs"]]
         ch["samples"] = [[float(rng.uniform(t0, t_max)), rng.choice(FILES), rng.choice([10, 70, 100])]
                          for _ in range(rng.choice([0, 0, 2, 5]))]
-        ch["meta"] = dict(title=rng.choice(TEXTS), title_unicode=rng.choice(TEXTS), artist=rng.choice(TEXTS),
-                          artist_unicode=rng.choice(TEXTS), creator=rng.choice(ASCII_TEXTS), version=rng.choice(ASCII_TEXTS + ["Hard 5"]),
-                          audio_file_name=rng.choice(["audio.mp3", "song file.ogg"]), background_file_name=rng.choice(["bg.png", "", "b g.jpg"]),
+        ch["meta"] = dict(title=rng.choice(OSU_QUA_TEXTS), title_unicode=rng.choice(OSU_QUA_TEXTS), artist=rng.choice(OSU_QUA_TEXTS),
+                          artist_unicode=rng.choice(OSU_QUA_TEXTS), creator=rng.choice(ASCII_TEXTS), version=rng.choice(ASCII_TEXTS + ["Hard 5"]),
+                          audio_file_name=rng.choice(["audio.mp3", "song file.ogg"]), background_file_name=rng.choice(["bg.png", "", "b g.jpg", "stage, final (1920x1080).jpg"]),
                           preview_time=rng.choice([-1, 0, 12345, 60000]), circle_size=float(keys),
-                          tags=rng.choice([[], ["a", "b"], ["tag"], ["東方\u3000Project", "x"], ["no\u00a0break"]]), source=rng.choice(ASCII_TEXTS))
+                          tags=rng.choice([[], ["a", "b"], ["tag"], ["東方\u3000Project", "x"], ["no\u00a0break"], ["a//b", "c"]]), source=rng.choice(ASCII_TEXTS + ["http://example.com/ost"]))
     elif game == "qua":
         # key sounds as the format has them (a list of {Sample, Volume} records; 100 is the format's default volume) or as plain labels
         ks = [[], [], ["a"], ["a", "b"], [{"Sample": 1, "Volume": 100}], [{"Sample": 2, "Volume": 50}, {"Sample": 3, "Volume": 100}]]
         ch["hit_x"] = [[[dict(d) if isinstance(d, dict) else d for d in rng.choice(ks)]] for _ in hits]
         ch["hold_x"] = [[[dict(d) if isinstance(d, dict) else d for d in rng.choice(ks[:2] + [["k"]] + ks[4:])]] for _ in holds]
-        ch["meta"] = dict(title=rng.choice(TEXTS), artist=rng.choice(TEXTS), creator=rng.choice(ASCII_TEXTS),
+        ch["meta"] = dict(title=rng.choice(OSU_QUA_TEXTS), artist=rng.choice(OSU_QUA_TEXTS), creator=rng.choice(ASCII_TEXTS),
                           difficulty_name=rng.choice(ASCII_TEXTS), audio_file=rng.choice(["audio.mp3", "a b.ogg"]),
                           background_file=rng.choice(["bg.png", ""]), song_preview_time=rng.choice([0, 1234]),
                           mode={4: "Keys4", 7: "Keys7", 8: "Keys8"}.get(keys, "Keys4"), tags=rng.choice([[], ["x", "y"]]),
